@@ -1,16 +1,39 @@
 (* Props/C25.v — property theorems only.
-   Model: Expand/ShellApi.v (shell.Expand / shell.Fields on the word fragment).
-   The full statements C25_expand (= here-document Spec) and C25_fields (= argument Spec)
-   are NOT proved: the model is tied to the code by the code leg and to bash by the search.
-   Proved here: clauses about validity and about "empty means unset". *)
-From Verif Require Import Base.Str Expand.ShellApi Proofs.ShellApiProofs.
+   Model: Expand/ShellApi.v (shell.Expand / shell.Fields on the word fragment);
+   Spec: Expand/ShellSpec.v — here-document text by recursive descent (backslash quotes only $ \ `,
+   $name / ${name} replaced, everything else literal) and argument words by marked characters
+   (POSIX 2.6: split at IFS white space coming from unquoted expansions and at the blanks between
+   words, drop empty unquoted fields, an empty variable is unset).  The lexer producing the items of a
+   word list is shared by model and Spec for Fields; for Expand the Spec works on the raw text. *)
+From Verif Require Import Base.Str Expand.ShellApi Expand.ShellSpec Proofs.ShellApiProofs Proofs.ShellSpecProofs.
 Open Scope N_scope.
 
+(* shell.Expand = the here-document Spec, for every environment and every text (outside the fragment
+   both sides say EOut, on an unterminated ${ both say EErr) *)
+Theorem C25_expand : forall env s, shell_expand env s = shell_expand_spec env s.
+Proof. exact expand_correct. Qed.
+Print Assumptions C25_expand.
+
+(* shell.Fields = the argument Spec with empty = unset *)
+Theorem C25_fields : forall env s, shell_fields env s = shell_fields_spec env s.
+Proof. exact fields_correct. Qed.
+Print Assumptions C25_fields.
+
+(* the Spec really produces fields: x = (a b), e unset:  $x"$e"''$e  ->  a , b  (b followed by two
+   empty quoted strings is the field b) ; $e alone -> nothing ; "$e" -> one empty field *)
+Example C25_spec_example :
+  let env := fun n : str => if str_eqb n [120] then [97; 32; 98] else [] in
+  fields_of_marked (flat_map (expand_item env) [IVar [120]; IQMarkD; IQVar [101]; IQMarkS; IVar [101]]) = [[97]; [98]] /\
+  fields_of_marked (flat_map (expand_item env) [IVar [101]]) = [] /\
+  fields_of_marked (flat_map (expand_item env) [IQMarkD; IQVar [101]]) = [[]] /\
+  shell_expand_spec env [36; 120; 92; 36; 92; 97; 36; 123; 120; 125; 34] = EOk [97; 32; 98; 36; 92; 97; 97; 32; 98; 34].
+Proof. vm_compute. repeat split; reflexivity. Qed.
+
 (* text without $ \ ` is returned unchanged, for every environment *)
-Theorem C25_expand_plain_partial : forall env s,
+Theorem C25_expand_plain : forall env s,
   forallb plain_char s = true -> shell_expand env s = EOk s.
 Proof. exact expand_plain. Qed.
-Print Assumptions C25_expand_plain_partial.
+Print Assumptions C25_expand_plain.
 
 (* C25_error_iff_invalid on the fragment lexer: Expand reports an error exactly when the text
    ends inside an unterminated ${ ... *)
@@ -33,10 +56,10 @@ Proof. exact fields_error_env_independent. Qed.
 Print Assumptions C25_fields_validity_env_independent.
 
 (* empty = unset: $n alone gives no field, "$n" gives one empty field *)
-Theorem C25_fields_unset_partial : forall env n,
+Theorem C25_fields_unset : forall env n,
   env n = [] -> word_fields env [IVar n] = [] /\ word_fields env [IQMarkD; IQVar n] = [[]].
 Proof. exact fields_unset_var. Qed.
-Print Assumptions C25_fields_unset_partial.
+Print Assumptions C25_fields_unset.
 
 (* non-vacuity: tilde, quoted and unquoted expansion of x = a b, an empty quoted word, an unset
    variable; an unclosed double quote is an error; here-document escapes *)
